@@ -729,9 +729,9 @@ def _atheris_cases(tier):
 
     seed = fuzz.env_seed()
     return [
-        {"target": "raw", "corpus": "seeded", "runs": fuzz.scaled(250000), "seed": seed},
-        {"target": "raw", "corpus": "empty", "runs": fuzz.scaled(250000), "seed": seed},
-        {"target": "parse", "corpus": "empty", "runs": fuzz.scaled(150000), "seed": seed},
+        {"target": "raw", "corpus": "seeded", "runs": fuzz.scaled(200000), "seed": seed},
+        {"target": "raw", "corpus": "empty", "runs": fuzz.scaled(200000), "seed": seed},
+        {"target": "parse", "corpus": "empty", "runs": fuzz.scaled(120000), "seed": seed},
     ]
 
 
